@@ -50,6 +50,12 @@ def _strip_annotations(ops):
 
 
 def run_property(pid, tier, seed, keep=False):
+    clean = tier == "thorough" and os.environ.get("VERIF_NO_CLEAN") != "1"
+    with core.RunLock(exclusive=clean):     # a clean rebuild needs the tree for itself (see core.RunLock)
+        return _run_property(pid, tier, seed, keep)
+
+
+def _run_property(pid, tier, seed, keep=False):
     spec = PROPS[pid]
     t0 = time.time()
     known = core.load_known()
@@ -272,6 +278,11 @@ def _replay_known(sc, pid, spec, known, known_hits):
 
 
 def replay(pid, path, keep=False):
+    with core.RunLock():
+        return _replay(pid, path, keep)
+
+
+def _replay(pid, path, keep=False):
     spec = PROPS[pid]
     payload = json.load(open(path))
     if payload.get("kind") not in ("direct-oracle", "correspondence"):
